@@ -4,14 +4,15 @@ import Bec2Verif.Lemmas.P256Curve
 import Bec2Verif.Lemmas.KeyDer
 import Bec2Verif.Lemmas.Oid
 import Bec2Verif.Lemmas.CurveDer
+import Bec2Verif.Lemmas.Pem
 /-!
 # C19 — key and point encodings
 
 Theorems about the models `Model/Der.lean` (DER primitives of `ecdsa/der.py`) and `Model/PointCodec.lean` (point strings,
 SubjectPublicKeyInfo of a named curve), which the correspondence check compares with the code on valid encodings, every
 truncation, byte mutations and structurally consistent DER edits.  `Encodable l` only excludes lengths of 2^1016 bytes
-and more.  Byte compatibility with OpenSSL, PEM, SEC1/PKCS#8 private keys and explicit curve parameters are evaluated
-directly on the real code (all 17 curves, both directions), not modelled.
+and more.  `Model/Pem.lean` is the PEM armour with the base64 codec of the standard library under it.  Byte compatibility
+with OpenSSL and the key objects around the codecs are evaluated directly on the real code (all 17 curves, both directions).
 -/
 namespace Bec2Verif.C19
 open Bec2Verif Der PointCodec
@@ -132,6 +133,20 @@ def explicitFinds (r : Gen.CurveRec) (enc : Enc) : Bool :=
 theorem explicit_finds_named_curves :
     ∀ r ∈ Gen.curves, explicitFinds r .uncompressed = true ∧ explicitFinds r .hybrid = true := by
   decide +kernel
+
+/-- **base64**: `b64decode(b64encode(d)) == d` for every byte string (the decoder is CPython's non-strict one) -/
+theorem base64_roundtrip (d : Bytes) : Pem.b64decode (Pem.b64encode d) = .ok d := Pem.b64decode_encode d
+
+/-- **PEM armour**: `unpem(topem(der, name)) == der` for every DER string of any length and every label without a line
+feed (the labels in use: `PUBLIC KEY`, `EC PRIVATE KEY`, `PRIVATE KEY`, `EC PARAMETERS`) — the 64-character lines survive
+`split`, the `-----` filter and `strip`; the BEGIN / END lines do not -/
+theorem pem_armour_roundtrip (der name : Bytes) (hname : ∀ c ∈ name, c ≠ 10) :
+    Pem.unpem (Pem.topem der name) = .ok der := Pem.unpem_topem der name hname
+
+/-- the labels in use satisfy the hypothesis, and a concrete armour decodes -/
+example : ∀ c ∈ ([69, 67, 32, 80, 82, 73, 86, 65, 84, 69, 32, 75, 69, 89] : Bytes), c ≠ 10 := by decide  -- "EC PRIVATE KEY"
+example : Pem.unpem (Pem.topem [0x30, 0x03, 0x02, 0x01, 0x05] [80, 85, 66, 76, 73, 67, 32, 75, 69, 89]) =
+    .ok [0x30, 0x03, 0x02, 0x01, 0x05] := by decide +kernel
 
 example : Der.Encodable 300 := by show (beBytes 300).length < 128; decide
 example : (beBytes 115792089210356248762697446949407573529996955224135760342422259061068512044369).length + 1 < 128 := by
